@@ -38,6 +38,18 @@ Lemmas used when facts are combined (`_lookup`, `_cv`):
   L2  `x is None` holds  =>  `x` is falsy;  `x` is truthy  =>  `x is not None`      (None is falsy);
   L3  a member of an enum of the C definitions compares equal to its integer value (dissect.cstruct enum semantics),
       so `s.type == SettingsType.TYPE_SHORT` and `s.type == 1` are the same atom.
+  L4  (cardinality classes, `_card`) a settings mapping filled with one insertion per record has one entry per
+      *distinct* key: never more entries than records and strictly fewer as soon as two records share a key, which the
+      quantifier of the property admits (duplicates allowed).  zip / map-over-several-iterables pair position by
+      position and stop at the shortest argument, so pairing a sequence with exactly one element per record
+      (self.settings_tuple, a comprehension without filter over it, a property returning such) with the entries of
+      such a mapping (a view, settings_map(..), their keys()/values()/items()) pairs, from the first duplicate that
+      is followed by another record on, a record with the entry of a later record and drops the last ones.
+  L5  (length domain N u {inf}, `_len_bound`/`_trips`) len(s.read(c)) <= c for a constant c >= 0, read() / read(-1) /
+      read(None) have no bound; len(x[a:b]) <= len(x); strip/rstrip/lstrip/removeprefix/removesuffix and one piece of
+      split/partition are not longer than x; len(a + b) = len(a) + len(b); an accumulator `x += e` grows by len(e)
+      per execution; a statement nested in loops runs at most the product of their trip bounds per outer iteration
+      (`while` and `for .. in iter(f, sentinel)`: inf, `for .. in range(<const>)`: the constant, other `for`: unknown).
 Summary relied on for the integer conversion (`_int_conv`):
   S1  utils.unpack(data, size, byteorder, signed) is int.from_bytes(data[:size], byteorder, signed=signed); partials
       of it contribute their bound keywords (read from the resolver), defaults are read from the signature.
@@ -49,7 +61,11 @@ R2  3 (per-path key/value terms of the per-setting loop body, analysed once), 2 
     size/byteorder/signed; parameter defaults); L1-L3, S1.
 R3  3 (per-path return value / stores of each cached view, helpers entered with bound arguments), 2 (the emptiness
     fact `slot is None` on the filling path, `slot` filled on the returning path; L2), 1 (bind_args of the
-    settings_map call), 6 (its constant arguments compared with the reference table VIEWS).
+    settings_map call), 6 (its constant arguments compared with the reference table VIEWS).  Positional pairing:
+    4 (every zip / multi-iterable map in the terms a view returns or stores gets the cardinality class of each
+    argument - "one per record" vs "one per distinct key of a settings mapping"; a pairing that mixes the two is
+    violated by L4, everything else is left to the verdicts above), 3 (terms with locals substituted; properties of
+    the class such as setting_enums are entered and classified by their returned term), 5 (the view names of VIEWS).
 R4  3 (identity of the returned mapping term, stores/effects per path of the loop body analysed once), 1 (order-keeping
     vs order-changing wrappers of the iterated expression and of settings_tuple; resolved callee of iter_settings),
     2 (paths that leave the loop early / fall off the end).
@@ -57,7 +73,11 @@ R5  2 (CFG reachability / dominance: yield between parse and loop header, termin
     exit, give-back between peek and parse), 3 (`origin`/`inline` of the compared peek and of the seek offset), 1
     (peek / seek / struct-parse located by role), 6 (the constants 2, -2, b"\\x00\\x00", SEEK_CUR).
 R6  2 (facts of the branch edges that dominate the rename / extension site), 3 (`inline` of the tests and of the
-    assigned value), 5 + 6 (enum members of the C definitions, 36, 9, 0x80); L1, L3.
+    assigned value), 5 + 6 (enum members of the C definitions, 36, 9, 0x80); L1, L3.  "Continues to its NUL" at any
+    distance: 4 (upper bound, in the length domain of L5, of the bytes all extension sites can append to the value per
+    record; a finite bound is a violation - the NUL may lie farther away -, inf discharges, a term outside the
+    transfer rules is undecided), 3 (`inline` of the appended term, accumulator definitions), 6 (the read sizes and
+    range bounds are constants of the code; nothing is iterated or evaluated on data).
 R7  1 (every string subscript / `.get("...")` key and enum attribute in the package that looks like SETTING_*; the
     `re` pattern is applied to identifiers and string literals taken from the syntax tree to select them, not to
     judge a /repo regex), 6 (membership in the enum tables of the C definitions).
@@ -70,7 +90,7 @@ import copy
 import re
 
 from csverif.astutil import (
-    bind_args, body_walk, const_eval, dotted, fn_calls, is_const, is_none, NotConst, param_defaults, params,
+    assignments_to, bind_args, body_walk, const_eval, dotted, fn_calls, is_const, is_none, NotConst, param_defaults, params,
     src, statements,
 )
 from csverif.q import FuncView, dominating_conditions, inline, origin
@@ -672,9 +692,14 @@ def run(ctx):
         "int.from_bytes, or the raw value; key per index_type; one insertion per setting in tuple order; "
         "MappingProxyType exit), of the four cached views (cache slot, emptiness guard, settings_map arguments; helpers "
         "entered with bound arguments), CFG exit/yield/terminator/seek-back analysis of iter_settings, index-36 and "
-        "User-Agent guards from dominating branch facts, and the SETTING_* key vocabulary used across the package."
+        "User-Agent guards from dominating branch facts, a length-domain upper bound on the bytes the User-Agent continuation can "
+        "append per record (must not be finite), cardinality classes (per record / per distinct key) of the arguments of every "
+        "positional pairing (zip, multi-iterable map) a cached view is assembled with, and the SETTING_* key vocabulary used "
+        "across the package."
     )
-    rep.not_decided = ["the numeric values themselves", "alias-name choice for duplicated enum values (16/17/48)", "behaviour for arbitrary trailing bytes"]
+    rep.not_decided = ["the numeric values themselves", "alias-name choice for duplicated enum values (16/17/48)", "behaviour for arbitrary trailing bytes",
+                       "views that are not computed by settings_map and contain no record/key pairing (undecided)",
+                       "that the User-Agent continuation stops exactly at the NUL (only that no constant bounds it)"]
     rep.trusted_base = ["CPython ast", "networkx dominators", "C-definition parser (csverif.cdefs)", "dissect.cstruct parses fields in declaration order"]
     r1(ctx)
     r2_r4(ctx)
@@ -1018,6 +1043,96 @@ def _settings_tuple(ctx):
         ctx.undecided("R4", "AGREE", init, text, f"settings_tuple = `{src(v)}`: cannot tell whether it is the parser's output in order", sites[0])
 
 
+# ============================================================================================ cardinality classes
+_REC = ("rec",)
+_LEN_KEEPING = ("tuple", "list", "iter", "enumerate", "reversed", "sorted")
+
+
+def _is_property(fn):
+    return any((dotted(d) or "").split(".")[-1] in ("property", "cached_property") for d in fn.decorator_list)
+
+
+def _card(ctx, f, t, depth=0):
+    """Cardinality class of the sequence obtained by iterating term t (abstract length domain, symbolic in the number of
+    records n and the number of distinct keys of a settings mapping): ("rec",) = exactly one element per on-disk record
+    (self.settings_tuple and what is derived from it element by element); ("keys", index_type) = one element per
+    *distinct* key of a settings mapping of that index_type (a view, settings_map(..), their keys()/values()/items());
+    None = not understood."""
+    if depth > 6 or t is None:
+        return None
+    rec = lambda x: _card(ctx, f, x, depth + 1)  # noqa: E731
+    d = dotted(t)
+    if d == "self.settings_tuple":
+        return _REC
+    if d is not None:
+        if d.startswith("self.") and d.count(".") == 1 and f.cls:
+            name = d.split(".")[1]
+            if name in VIEWS:
+                return ("keys", VIEWS[name][0])
+            p = f.module.funcs.get(f"{f.cls}.{name}")
+            if p is not None and p.cls == f.cls and isinstance(p.node, ast.FunctionDef) and _is_property(p.node) and p.node is not f.node:
+                try:
+                    outs = _Exec(ctx, p).run(p.node.body, _St())
+                except _Unmodelled:
+                    return None
+                classes = {_card(ctx, p, o.ret, depth + 1) for o in outs if o.done != "raise"}
+                return classes.pop() if len(classes) == 1 else None
+        return None
+    if isinstance(t, (ast.ListComp, ast.GeneratorExp)):
+        g = t.generators
+        if len(g) == 1 and not g[0].ifs and not g[0].is_async:
+            return rec(g[0].iter)
+        return None
+    if isinstance(t, ast.Subscript) and isinstance(t.slice, ast.Slice) and t.slice.lower is None and t.slice.upper is None and t.slice.step is None:
+        return rec(t.value)
+    if not isinstance(t, ast.Call) or any(isinstance(a, ast.Starred) for a in t.args):
+        return None
+    fd = dotted(t.func)
+    if fd == "self.settings_map":
+        try:
+            b = bind_args(t, ctx.repo.func("beacon.BeaconConfig.settings_map").node, skip_self=True)
+            return ("keys", const_eval(b["index_type"]))
+        except Exception:
+            return ("keys", None)
+    if fd in _LEN_KEEPING and len(t.args) == 1:
+        return rec(t.args[0])
+    if fd == "map" and len(t.args) == 2 and not t.keywords:
+        return rec(t.args[1])
+    if fd == "range" and len(t.args) == 1 and isinstance(t.args[0], ast.Call) and dotted(t.args[0].func) == "len" and len(t.args[0].args) == 1:
+        return rec(t.args[0].args[0])
+    if fd == "zip" and t.args:
+        classes = {rec(a) for a in t.args}
+        return classes.pop() if len(classes) == 1 else None
+    if isinstance(t.func, ast.Attribute) and t.func.attr in ("values", "keys", "items") and not t.args and not t.keywords:
+        c = rec(t.func.value)
+        return c if c is not None and c[0] == "keys" else None
+    return None
+
+
+def _mispaired(ctx, f, t):
+    """Positional pairings (zip / map over several iterables) inside term t that pair a per-record sequence with the
+    entries of a key-indexed settings mapping (lemma L4: their lengths differ as soon as a key occurs twice)."""
+    out = []
+    for n in ast.walk(t) if t is not None else ():
+        if not isinstance(n, ast.Call):
+            continue
+        fd = dotted(n.func)
+        if fd in ("zip", "itertools.zip_longest", "zip_longest") and len(n.args) >= 2:
+            its = n.args
+        elif fd == "map" and len(n.args) >= 3:
+            its = n.args[1:]
+        else:
+            continue
+        classes = [(a, _card(ctx, f, a)) for a in its]
+        recs = [a for a, c in classes if c == _REC]
+        keys = [a for a, c in classes if c is not None and c[0] == "keys"]
+        if recs and keys:
+            out.append(f"`{src(n)[:110]}` pairs `{src(recs[0])[:50]}` (one element per on-disk record) position by position with `{src(keys[0])[:50]}` "
+                       "(one entry per distinct key): as soon as a setting index occurs twice the mapping is shorter and every later "
+                       "record is paired with the entry of a following one")
+    return out
+
+
 # ============================================================================================ R3: cached views
 def _view(ctx, f, smap, itype, pretty):
     """(verdict, detail, slot) for one cached view."""
@@ -1027,6 +1142,18 @@ def _view(ctx, f, smap, itype, pretty):
     except _Unmodelled as e:
         return None, f"shape not modelled ({e})", None
     paths = [o for o in outs if o.done != "raise"]
+    # a view assembled by positional pairing: the paired sequences must have one element per record each
+    seen = set()
+    for o in paths:
+        for t in [o.ret] + [s[-1] for s in o.stores] + list(o.effects):
+            key = getattr(t, "_tok", None) or (src(t) if t is not None else None)
+            if t is None or key in seen:
+                continue
+            seen.add(key)
+            mis = _mispaired(ctx, f, t)
+            if mis:
+                slots = {s[1] for p in paths for s in p.stores if s[0] == "attr" and s[1].startswith("self.")}
+                return False, mis[0], next(iter(slots)) if len(slots) == 1 else None
 
     def sm_calls(o):
         seen, out = set(), []
@@ -1367,6 +1494,166 @@ def r5_r6(ctx):
             agg.add(g1 and g2, f"extension of {sname}.value guarded by index==USERAGENT={g1}, length==0x80={g2}")
         agg.emit(ctx, "R6", "DOM", f, text, f"{sname}.value is extended only under index==USERAGENT and length==0x80 ({len(ext)} site(s))", loop)
         ctx.rep.count("iter_settings_value_extensions", len(ext), floor=1)
+    # the continuation reaches a NUL at any distance: no constant bounds the number of bytes appended per record
+    text = "User-Agent continuation not bounded by a constant"
+    if not ext:
+        if mentions("SETTING_USERAGENT"):
+            ctx.undecided("R6", "ABS", f, text, f"no extension of {sname}.value found: nothing to bound", loop)
+        return
+    total, parts = 0, []
+    for s in ext:
+        terms, keeps = _appended(s, f"{sname}.value")
+        trips = _trips(fv, s, loop)
+        b = 0
+        for t in terms:
+            bt = _len_bound(f.node, fv, inline(f.node, t, stop=stop), loop, stop)
+            b = None if b is None or bt is None else b + bt
+        site = _mul(b, trips)
+        parts.append(f"`{src(s)[:60]}`: at most {_show(b)} byte(s) x {_show(trips)} execution(s) per record" + ("" if keeps else " (replaces the value)"))
+        total = None if total is None or site is None else total + site
+        if site == _INF:
+            total = _INF
+            break
+    if total == _INF:
+        ctx.ob("R6", "ABS", f, text, True, "no finite upper bound on the bytes appended per record is derivable in the length domain: " + "; ".join(parts[-1:]), ext[0])
+    elif total is None:
+        ctx.undecided("R6", "ABS", f, text, "the length of the appended data is not understood: " + "; ".join(parts), ext[0])
+    else:
+        ctx.ob("R6", "ABS", f, text, False, f"the continuation appends at most {total} byte(s) per record ({'; '.join(parts)}): a User-Agent whose NUL lies farther away is cut "
+               "off and the following records are parsed from the middle of the string", ext[0])
+
+
+# ---- abstract length domain N u {inf} (None = not understood); transfer rules = lemma L5 of the module docstring
+_INF = float("inf")
+_NOT_LONGER = ("rstrip", "lstrip", "strip", "removeprefix", "removesuffix")
+_PIECES = ("split", "rsplit", "partition", "rpartition", "splitlines")
+
+
+def _show(b):
+    return "?" if b is None else "unboundedly many" if b == _INF else str(b)
+
+
+def _mul(a, b):
+    if a is None or b is None:
+        return None
+    if a == 0 or b == 0:
+        return 0
+    return a * b
+
+
+def _loop_trips(lp):
+    """Upper bound of the trip count of one loop statement: while -> inf; for over range(<const>) -> the constant;
+    for over iter(callable, sentinel) -> inf; any other for -> not understood."""
+    if isinstance(lp, ast.While):
+        return _INF
+    it = lp.iter
+    if isinstance(it, ast.Call) and dotted(it.func) == "range" and not it.keywords and 1 <= len(it.args) <= 2:
+        vals = [_c(a) for a in it.args]
+        if all(isinstance(v, int) and not isinstance(v, bool) for v in vals):
+            return max(0, vals[0] if len(vals) == 1 else vals[1] - vals[0])
+        return None
+    if isinstance(it, ast.Call) and dotted(it.func) == "iter" and len(it.args) == 2 and not it.keywords:
+        return _INF
+    if isinstance(it, ast.Call) and dotted(it.func) in ("itertools.count", "count", "itertools.repeat", "itertools.cycle"):
+        return _INF
+    return None
+
+
+def _trips(fv, st, outer):
+    """Upper bound on how often statement st is executed during one iteration of loop `outer` (product over the loops
+    between them)."""
+    n = 1
+    for a in fv.ancestors(st):
+        if a is outer:
+            break
+        if isinstance(a, (ast.While, ast.For, ast.AsyncFor)):
+            n = _mul(n, _loop_trips(a))
+            if n is None:
+                return None
+    return n
+
+
+def _appended(s, target):
+    """(terms appended by extension statement s to `target`, True) - or ([the new value], False) if s replaces it."""
+    if isinstance(s, ast.AugAssign):
+        return [s.value], isinstance(s.op, ast.Add)
+    ops, todo = [], [s.value]
+    while todo:
+        e = todo.pop()
+        if isinstance(e, ast.BinOp) and isinstance(e.op, ast.Add):
+            todo.extend([e.right, e.left])
+        else:
+            ops.append(e)
+    own = [e for e in ops if dotted(e) == target]
+    if len(own) == 1:
+        return [e for e in ops if e is not own[0]], True
+    return [s.value], False
+
+
+def _len_bound(fn, fv, e, outer, stop, depth=0):
+    """Upper bound of len(e) for a bytes-valued term."""
+    if depth > 8:
+        return None
+    rec = lambda x: _len_bound(fn, fv, x, outer, stop, depth + 1)  # noqa: E731
+    if isinstance(e, ast.Constant):
+        return len(e.value) if isinstance(e.value, (bytes, str)) else None
+    if isinstance(e, ast.BinOp) and isinstance(e.op, ast.Add):
+        a, b = rec(e.left), rec(e.right)
+        return None if a is None or b is None else a + b
+    if isinstance(e, ast.IfExp):
+        a, b = rec(e.body), rec(e.orelse)
+        return None if a is None or b is None else max(a, b)
+    if isinstance(e, ast.Subscript):
+        if isinstance(e.slice, ast.Slice):
+            return rec(e.value)  # a slice is not longer than the sliced sequence
+        v = e.value
+        if isinstance(v, ast.Call) and isinstance(v.func, ast.Attribute) and v.func.attr in _PIECES and isinstance(_c(e.slice), int):
+            return rec(v.func.value)  # a piece of a split/partition is not longer than the whole
+        return None
+    if isinstance(e, ast.Call):
+        d = dotted(e.func)
+        if d in ("bytes", "bytearray", "memoryview") and len(e.args) == 1 and not e.keywords:
+            a = e.args[0]
+            return None if isinstance(_c(a), int) else rec(a)
+        if isinstance(e.func, ast.Attribute):
+            if e.func.attr in ("read", "read1") and not e.keywords and len(e.args) <= 1 and not any(isinstance(a, ast.Starred) for a in e.args):
+                if not e.args:
+                    return _INF
+                if is_none(e.args[0]):
+                    return _INF
+                n = _c(e.args[0])
+                if isinstance(n, int) and not isinstance(n, bool):
+                    return _INF if n < 0 else n  # read(n) returns at most n bytes
+                return None
+            if e.func.attr in _NOT_LONGER:
+                return rec(e.func.value)
+        return None
+    if isinstance(e, ast.Name):
+        if e.id in params(fn) or e.id in stop:
+            return None
+        plain, total = None, 0
+        defs = assignments_to(fn, e.id)
+        if not defs:
+            return None
+        for st, v in defs:
+            if v is not None:
+                if any(isinstance(x, ast.Name) and x.id == e.id for x in ast.walk(v)):
+                    return None
+                b = rec(v)
+                if b is None:
+                    return None
+                plain = b if plain is None else max(plain, b)
+            elif isinstance(st, ast.AugAssign) and isinstance(st.op, ast.Add) and isinstance(st.target, ast.Name):
+                if any(isinstance(x, ast.Name) and x.id == e.id for x in ast.walk(st.value)):
+                    return None
+                b = _mul(rec(st.value), _trips(fv, st, outer))  # an accumulator grows by the sum of what is added
+                if b is None:
+                    return None
+                total += b
+            else:
+                return None
+        return (plain or 0) + total
+    return None
 
 
 def _r6_tables(ctx):
